@@ -58,6 +58,8 @@ type universe struct {
 	// resolution of a ref query has produced, keyed "path@version"
 	pseudo map[string]*uVersion
 	devs   []*uVersion // untagged revisions that change a project's configuration
+	// tagless projects have commits but no tagged version: "latest" falls back to the default branch
+	tagless map[string]string // project path -> directory in its repository
 }
 
 func (u *universe) find(p, v string) *uVersion {
@@ -217,6 +219,23 @@ func genUniverse(r *rand.Rand) *universe {
 		}
 	}
 	u.finish(all, r)
+	// projects that were never tagged: one or two commits at the end of a repository's history
+	u.tagless = map[string]string{}
+	for k := r.IntN(3) - 1; k > 0; k-- {
+		repo := u.repos[fmt.Sprintf("github.com/org/r%d", r.IntN(nrepo))]
+		dir := fmt.Sprintf("untagged%d", k)
+		full := path.Join(repo.addr, dir)
+		u.tagless[full] = dir
+		for j := 1 + r.IntN(2); j > 0; j-- {
+			dv := &uVersion{Path: full, Name: "fresh" + fmt.Sprint(k), projDir: dir}
+			drev := &fakeRev{id: fmt.Sprintf("%s-rev%d", path.Base(repo.addr), len(repo.revs)), n: len(repo.revs), repo: repo}
+			repo.revs = append(repo.revs, drev)
+			dv.rev = drev.id
+			repo.byRev[drev.id] = dv
+			repo.refs["main"] = drev.id
+			u.devs = append(u.devs, dv)
+		}
+	}
 	// requirement edges: diamonds and cycles
 	for _, uv := range append(append([]*uVersion{}, all...), u.devs...) {
 		for k := r.IntN(4); k > 0; k-- {
@@ -392,6 +411,26 @@ type qspec struct {
 }
 
 func (u *universe) genQuery(r *rand.Rand, bl map[string]string) qspec {
+	taglessQ := func(p string) qspec {
+		k := []string{"latest", "bare", "upgrade", "patch", "ref"}[r.IntN(5)]
+		q := qspec{path: p, kind: "tagless-" + k, arg: "main", text: p + "@" + k}
+		switch k {
+		case "bare":
+			q.text = p
+		case "ref":
+			q.text = p + "@main"
+		}
+		return q
+	}
+	if len(u.tagless) > 0 && r.IntN(10) == 0 {
+		// a project without any tagged version: latest / upgrade / patch / bare all end at the default branch
+		var ps []string
+		for p := range u.tagless {
+			ps = append(ps, p)
+		}
+		sort.Strings(ps)
+		return taglessQ(ps[r.IntN(len(ps))])
+	}
 	p := u.paths[r.IntN(len(u.paths))]
 	if r.IntN(2) == 0 { // prefer projects that are in the build list
 		var in []string
@@ -404,6 +443,9 @@ func (u *universe) genQuery(r *rand.Rand, bl map[string]string) qspec {
 		if len(in) > 0 {
 			p = in[r.IntN(len(in))]
 		}
+	}
+	if _, ok := u.tagless[p]; ok {
+		return taglessQ(p)
 	}
 	vs := u.versions[p]
 	v := vs[r.IntN(len(vs))].Version
@@ -483,6 +525,15 @@ func (u *universe) refResolve(q qspec, bl map[string]string) string {
 			}
 		}
 		return out
+	}
+	if strings.HasPrefix(q.kind, "tagless-") {
+		// without tags there is nothing but the default branch; once selected, upgrade and patch keep what is selected
+		// unless the branch head is newer
+		pv := u.refResolveRef(q)
+		if cur, ok := bl[q.path]; ok && (q.kind == "tagless-patch" || (q.kind == "tagless-upgrade" && semver.Compare(pv, cur) < 0)) {
+			return cur
+		}
+		return pv
 	}
 	switch q.kind {
 	case "ref":
@@ -564,7 +615,7 @@ func (u *universe) refResolveRef(q qspec) string {
 	}
 	pv := module.PseudoVersion(major, older, rev.When(), rev.PseudoID())
 	// the content of that pseudo-version: the project's directory at that revision
-	var projDir string
+	projDir := u.tagless[q.path]
 	for _, v := range u.versions[q.path] {
 		projDir = v.projDir
 	}
